@@ -170,7 +170,7 @@ func (d *cStateDb) DestroyAccount(addr common.Address) {
 	// remove auth account
 	acc := d.accountKeeper.GetAccount(d.currentCtx, addr.Bytes())
 	if acc != nil {
-		destroyable, protectedReason := evmutils.CheckIfAccountIsSuitableForDestroying(acc)
+		destroyable, protectedReason := evmutils.CheckIfAccountIsSuitableForDestroyingAt(acc, d.currentCtx.BlockTime())
 		if !destroyable {
 			panic(
 				sdkerrors.ErrLogic.Wrapf(
